@@ -13,6 +13,9 @@ use super::*;
 //@include prelude/resolve_spec.rs
 //@include prelude/scope_order.rs
 //@include prelude/resolve_l2.rs
+//@include prelude/sort.rs
+//@include prelude/path_ext.rs
+//@include prelude/avail_spec.rs
 } // mod pre
 use pre::*;
 
@@ -28,6 +31,7 @@ impl FixtureDatabase {
     pub open spec fn fdefs(&self) -> Map<PV, Set<Seq<char>>> { fdefs_view(self.file_definitions.m()) }
     pub open spec fn provf(&self) -> spec_fn(Seq<char>) -> spec_fn(PV) -> bool { |n: Seq<char>| self.prov(n) }
 
+//@stub available resolve_fixture_for_file
 //@stub resolver_core find_closest_definition
 //@stub resolver_core find_closest_definition_excluding
 
